@@ -435,11 +435,12 @@ def _envs():  # noqa: ANN202
     return _ENV["nd"], _ENV["det"]
 
 
-def explore(query: str, doc: object, max_leaves: int, first_prefix: Optional[List[int]] = None, stop_above: int = 0):  # noqa: ANN201
+def explore(query: str, doc: object, max_leaves: int, first_prefix: Optional[List[int]] = None, stop_above: int = 0, compiled=None):  # noqa: ANN201, ANN001
     """Walk the whole choice tree (or the subtree below first_prefix[:stop_above]).
     Yields (prefix_trace, result-or-exception)."""
     nd, _ = _envs()
-    compiled = nd.compile(query)
+    if compiled is None:
+        compiled = nd.compile(query)
     prefix: Optional[List[int]] = list(first_prefix or [])
     fixed = list(prefix[:stop_above]) if stop_above else []
     leaves = 0
@@ -578,6 +579,39 @@ def _vsize(v: dict) -> Tuple[int, str]:
     return (len(s) + len(v["input"].get("choices", [])), s)
 
 
+def late_switch_cases(max_leaves: int = 20000):  # noqa: ANN201
+    """The flag belongs to the environment, not to the moment of compilation: a query compiled while the flag was
+    off and evaluated after it was switched on must produce the same set of orderings as one compiled afterwards."""
+    from jsonpath_rfc9535 import JSONPathEnvironment
+
+    out = []
+    n = 0
+    docs = [[[1], [2]], {"a": [1], "b": [2]}, [[[1]], [[2]]], {"a": {"b": 1}, "c": {"d": 2}}]
+    for query in ("$..[*]", "$..*", "$.*", "$[?@]"):
+        for doc in docs:
+            env = JSONPathEnvironment()
+            compiled = env.compile(query)
+            env.nondeterministic = True
+            late, early = set(), set()
+            try:
+                for trace, res in explore(query, doc, max_leaves, compiled=compiled):
+                    if trace is None or isinstance(res, BaseException):
+                        continue
+                    late.add(tuple(loc for loc, _ in res))
+                    n += 1
+                for trace, res in explore(query, doc, max_leaves):
+                    if trace is None or isinstance(res, BaseException):
+                        continue
+                    early.add(tuple(loc for loc, _ in res))
+                    n += 1
+            except TooWide:
+                continue
+            if late != early:
+                out.append({"kind": "c17-mode-fixed-at-compile-time", "what": "a query compiled before the flag was switched on does not produce the orderings of the nondeterministic mode",
+                            "input": {"query": query, "document": doc}, "expected": sorted(map(str, early))[:6], "observed": sorted(map(str, late))[:6]})
+    return n, out
+
+
 def run(tier: str, seed: int) -> dict:
     t0 = time.time()
     _selftest()
@@ -620,9 +654,11 @@ def run(tier: str, seed: int) -> dict:
     # deterministic order of aggregation
     results.sort(key=lambda r: (_short(r["doc"]), r["query"]))
     evaluations = sum(r["leaves"] for r in results)
+    n_late, v_late = late_switch_cases()
+    evaluations += n_late
     nontrivial = sum(1 for r in results if r["leaves"] > 1)
     truncated = [r for r in results if r["truncated"]]
-    viol: List[dict] = []
+    viol: List[dict] = list(v_late)
     for r in results:
         viol += r["violations"]
     by_kind: Dict[str, List[dict]] = {}
